@@ -294,9 +294,14 @@ class Driver:
         self.order = sorted(t.terminals, key=lambda n: (-t.terminals[n][3], -(t.terminals[n][5] or 0), -len(t.terminals[n][1]), n))
 
     def parse(self, text: str, start: str) -> Tuple[bool, str]:
+        ok, msg, _ = self.parse_at(text, start)
+        return ok, msg
+
+    def parse_at(self, text: str, start: str) -> Tuple[bool, str, int]:
+        """-> (accepted, message, position of the failure or -1)"""
         t = self.t
         if start not in t.start_states:
-            return False, f"no start state for {start}"
+            return False, f"no start state for {start}", 0
         stack = [t.start_states[start]]
         pos = 0
         n = len(text)
@@ -304,7 +309,7 @@ class Driver:
         while True:
             guard += 1
             if guard > 100000:
-                return False, "driver did not terminate"
+                return False, "driver did not terminate", pos
             state = stack[-1]
             row = t.states[state]
             # next token under the contextual lexer
@@ -323,7 +328,7 @@ class Driver:
                         m_name, m_end = name, m.end()
                         break
                 if m_name is None:
-                    return False, f"no terminal matches at {pos} ({text[pos:pos + 10]!r}) in state {state}"
+                    return False, f"no terminal matches at {pos} ({text[pos:pos + 10]!r}) in state {state}", pos
                 pos_new = m_end
                 if m_name in t.ignore:
                     pos = pos_new
@@ -333,10 +338,10 @@ class Driver:
                 break
             act = row.get(tok)
             if act is None:
-                return False, f"unexpected {tok} at {pos} in state {state}"
+                return False, f"unexpected {tok} at {pos} in state {state}", pos
             if act[0] == "shift":
                 if tok == "$END":
-                    return True, "accepted"
+                    return True, "accepted", -1
                 stack.append(act[1])
                 pos = tok_end
                 continue
@@ -348,9 +353,9 @@ class Driver:
             if rule[0] == start and tok == "$END" and stack[-1] == t.start_states[start]:
                 # reduction to the start symbol on $END
                 if goto is None:
-                    return True, "accepted"
+                    return True, "accepted", -1
             if goto is None or goto[0] != "shift":
-                return False, f"no goto for {rule[0]} in state {stack[-1]}"
+                return False, f"no goto for {rule[0]} in state {stack[-1]}", pos
             stack.append(goto[1])
             if stack[-1] == t.end_states.get(start) and tok == "$END":
-                return True, "accepted"
+                return True, "accepted", -1
